@@ -62,7 +62,85 @@ func randomDAG(rng *rand.Rand, n int) map[int][]int {
 }
 
 // RunSession executes one case and returns the trace event.
+// runPushShallow: the local repository holds commits WITHOUT their tables (what a depth-limited fetch leaves
+// behind) below own work: roots 1 (own, full) and 2 <- 3 (fetched shallow), 4 = merge(1, 3) (own, full; its
+// parent list names the own side first, so a parents-first list of what is to be pushed starts with a full
+// commit).  Pushing 4 to an empty remote may be refused; if the remote's ref is created, the remote must hold
+// the whole history with its tables (TraceSync: HistoryComplete).
+func runPushShallow(sc *SessionCase) (*Event, string, error) {
+	par := map[int][]int{1: {}, 2: {}, 3: {2}, 4: {1, 3}}
+	if sc.Idx%2 == 1 {
+		par = map[int][]int{1: {}, 2: {}, 3: {2}, 4: {3}, 5: {1, 4}} // a longer shallow side
+	}
+	u, err := BuildUniverse(par, 3)
+	if err != nil {
+		return nil, "", err
+	}
+	tip := len(par)
+	sdb, cdb := tbl.NewSafeStore(), tbl.NewSafeStore()
+	srs, sq1, err := refs.NewMemStore()
+	if err != nil {
+		return nil, "", err
+	}
+	defer sq1.Close()
+	crs, sq2, err := refs.NewMemStore()
+	if err != nil {
+		return nil, "", err
+	}
+	defer sq2.Close()
+	for c := 1; c <= tip; c++ {
+		if err := u.Give(cdb, c, c == 1 || c == tip); err != nil {
+			return nil, "", err
+		}
+	}
+	// refs as the commands leave them: with their logs (the branch by a commit, the tracking ref by a fetch)
+	if err := ref.SaveRef(crs, "heads/mine", u.Sum[tip], "verif", "verif@example.invalid", "commit", "own work", nil); err != nil {
+		return nil, "", err
+	}
+	if err := ref.SaveFetchRef(crs, "remotes/origin/up", u.Sum[tip-1], "verif", "verif@example.invalid", "origin", "storing head"); err != nil {
+		return nil, "", err
+	}
+	srv := refserver.New(sdb, srs, sc.MaxPack)
+	defer srv.Close()
+	client, err := apiclient.NewClient(srv.URL(), logr.Discard())
+	if err != nil {
+		return nil, "", err
+	}
+	before, _ := u.Project(sdb, srs)
+	sender, _ := u.Project(cdb, crs)
+	remoteRefs, rerr := client.GetRefs(nil, nil)
+	if rerr != nil {
+		return nil, "", rerr
+	}
+	um := map[string]*payload.Update{"heads/mine": {Sum: payload.BytesToHex(u.Sum[tip])}}
+	note := ""
+	var runErr error
+	ses, serr := apiclient.NewReceivePackSession(cdb, crs, client, um, remoteRefs, sc.MaxPack)
+	if serr != nil {
+		runErr = serr // refused before anything was sent
+	} else {
+		var res map[string]*payload.Update
+		res, runErr = ses.Start(pbar.NewContainer(nil, true))
+		for k, v := range res {
+			if v.ErrMsg != "" {
+				note += k + ": " + v.ErrMsg + "; "
+			}
+		}
+	}
+	if runErr != nil {
+		note += "refused: " + runErr.Error()
+	}
+	after, _ := u.Project(sdb, srs)
+	ev := &Event{Op: "sync", Kind: "push-shallow", Par: parList(par), Before: before, After: after, Sender: sender, Forced: []string{},
+		Depth: 0, Logs: newestLogs(u, srs, sideRefs(before), sideRefs(after)), Differs: u.Differs(sdb), Ok: runErr == nil,
+		Repeat: map[string]interface{}{"changed": false, "transferred": 0}, Note: note}
+	return ev, "push-shallow", nil
+}
+
 func RunSession(sc *SessionCase) (*Event, string, error) {
+	if sc.Dir == "pushshallow" {
+		return runPushShallow(sc)
+	}
 	rng := rand.New(rand.NewSource(sc.Seed*7907 + int64(sc.Idx)))
 	n := sc.Commits
 	if n == 0 {
